@@ -341,6 +341,23 @@ def _run_getind(desc):
                 sh.evaluations += 1
                 if L > 1 and len(set(seq)) > 1:
                     sh.nontrivial += 1
+    # the competing assignment over these four matrices (they share most of their peaks), in two list orders: the count kept per matrix
+    # is the number of peaks carrying its label, and it is what the labelled kernel refines over
+    from ImageD11 import cImageD11 as cI
+    for order in ((0, 1, 2, 3), (3, 2, 1, 0), (2, 0, 3, 1)):
+        ind = indexing.indexer(unitcell=None, gv=gv.copy(), hkl_tol=tol)
+        ind.ubis = [trials[k].copy() for k in order]
+        ind.fight_over_peaks()
+        case = {"kind": "getind", "ubi": ui, "sequence": list(order), "scratch_arrays_passed": "fight_over_peaks"}
+        for pos in range(len(order)):
+            carrying = int((np.asarray(ind.ga) == pos).sum())
+            npk, _ = cI.refine_assigned(ind.ubis[pos].copy(), ind.gv, ind.ga, pos)
+            if int(ind.gas[pos]) != carrying or int(npk) != carrying:
+                sh.violation("fight_over_peaks:count-kept-for-a-matrix-is-not-the-number-of-peaks-carrying-its-label", dict(case, position=pos),
+                             {"gas": int(ind.gas[pos]), "carrying_the_label": carrying, "refine_assigned_count": int(npk)})
+                return sh
+        sh.evaluations += 1
+        sh.nontrivial += 1
     sh.outcomes.add(("getind", tuple(int(w.sum()) for w in want)))
     sh.sample(case, limit=1)
     return sh
